@@ -67,13 +67,16 @@ def abs_leq(x, bound):
 
 def interesting_points(breaks, rng, n_random=40, scale=4.0):
   """breakpoints +-1 ulp, +-0, tiny, huge, random"""
+  old = np.seterr(all="ignore")
   pts = [0.0, -0.0, 1e-30, -1e-30, 2.0 ** -126, -2.0 ** -126, 1.5 * 2.0 ** -126, 3e38, -3e38, 1.0, -1.0]
   for v in breaks:
     v = np.float32(v)
     pts += [v, np.nextafter(v, np.float32(np.inf), dtype=np.float32), np.nextafter(v, np.float32(-np.inf), dtype=np.float32)]
   pts += list((rng.randn(n_random) * scale).astype(np.float32))
   pts += list((rng.randn(n_random // 4) * scale * 1e3).astype(np.float32))
-  return [np.float32(p) for p in pts]
+  res = [np.float32(p) for p in pts]
+  np.seterr(**old)
+  return res
 
 
 def validate_scalar(tr, call, points):
@@ -105,3 +108,64 @@ def validate_tensor(tr, call, tensors, free_fn=None):
         bad.append((t.tolist(), enc.tolist(), real.tolist()))
         break
   return bad
+
+
+def log_contract_ok(a, L):
+  """Python mirror of the (arithmetic-form) Log contract of vf.ir, computed with the same float32 operations;
+  used to validate the contract against the real kernel."""
+  import math
+  F = np.float32
+  a = F(a); L = F(L)
+  bits = ir.f32_bits(a)
+  E, M = (bits >> 23) & 0xFF, bits & 0x7FFFFF
+  if bits >> 31 or E == 0 or E == 255:
+    if a == 0:
+      return bool(np.isinf(L) and L < 0)
+    return True
+  kf = F(E - 127)
+  ln2, S = F(math.log(2.0)), F(ir.LOG_SLACK)
+  kl = F(kf * ln2)
+  k1 = F(F(kf + F(1.0)) * ln2)
+  kh = F(F(kf + F(0.5)) * ln2)
+  ok = F(kl - S) <= L <= F(k1 + S)
+  if M < ir.SQRT2_MAN - ir.LOG_WIN:
+    ok = ok and L <= F(kh - S)
+  if M > ir.SQRT2_MAN + ir.LOG_WIN:
+    ok = ok and L >= F(kh + S)
+  if M > ir.LOG_WIN:
+    ok = ok and L >= F(kl + S)
+  if M < (1 << 23) - 2 * ir.LOG_WIN:
+    ok = ok and L <= F(k1 - S)
+  return bool(ok)
+
+
+def validate_log_contract(n_random, rng, dense_windows=False):
+  """evaluate tf.math.log on many float32 values and check the contract + monotonicity.  returns #violations, #points"""
+  vals = []
+  for E in range(1, 255):
+    base = E << 23
+    ms = [0, 1, 2, ir.LOG_WIN - 1, ir.LOG_WIN, ir.LOG_WIN + 1, ir.SQRT2_MAN - ir.LOG_WIN - 1, ir.SQRT2_MAN - ir.LOG_WIN, ir.SQRT2_MAN,
+          ir.SQRT2_MAN + ir.LOG_WIN, ir.SQRT2_MAN + ir.LOG_WIN + 1, (1 << 23) - 2 * ir.LOG_WIN - 1, (1 << 23) - 2 * ir.LOG_WIN, (1 << 23) - 1]
+    if dense_windows:
+      ms += list(range(ir.SQRT2_MAN - 2 * ir.LOG_WIN, ir.SQRT2_MAN + 2 * ir.LOG_WIN, 3)) + list(range(0, 3 * ir.LOG_WIN, 3)) + \
+          list(range((1 << 23) - 4 * ir.LOG_WIN, 1 << 23, 3))
+    vals.extend(base | m for m in ms)
+  vals.extend(int(v) for v in rng.randint(1 << 23, 255 << 23, size=n_random))
+  arr = np.array(sorted(set(vals)), dtype=np.uint32).view(np.float32)
+  Lg = tf.math.log(tf.constant(arr)).numpy()
+  bad = 0
+  for a, l in zip(arr, Lg):
+    if not log_contract_ok(a, l):
+      bad += 1
+  return bad, len(arr)
+
+
+def validate_pow2_contract():
+  es = np.arange(-160, 141, dtype=np.float32)
+  r = tf.pow(tf.constant(2.0, tf.float32), tf.constant(es)).numpy()
+  bad = 0
+  for e, v in zip(es, r):
+    want = np.float32(0.0) if e < -126 else np.float32(np.inf) if e > 127 else np.float32(2.0 ** float(e))
+    if not evalr.same(v, want):
+      bad += 1
+  return bad, len(es)
